@@ -1,29 +1,10 @@
 from common import ENUMX_ASSUME, splice_qbft, splice_k1memo
 
-
-def splice_bsync(src, out):
-    """`"sync"` -> `sync ".../zzverif/bsync"` import rewrite of one charon file (generated from the current content, after a
-    patch under test has been applied): the file's locks become visible to the synctest bubble, so a member whose
-    goroutine waits for a lock for ever shows up as a member that never decides instead of freezing virtual time."""
-    import os
-    import re
-    s = open(src).read()
-    pat = re.compile(r'^(\s*)"sync"\s*$', re.M)
-    if len(pat.findall(s)) != 1:
-        return None
-    s = pat.sub(r'\1sync "github.com/obolnetwork/charon/zzverif/bsync"', s, count=1)
-    os.makedirs(os.path.dirname(out), exist_ok=True)
-    open(out, "w").write(s)
-    return out
-
-
 CHECK = dict(
     pkgs=["core/consensus/qbft", "core/qbft"],
-    files={"core/consensus/qbft": ["zz_verif_c04_test.go", "zz_verif_c04comp_test.go", "zz_verif_c05_test.go", "zz_verif_c05x_test.go"], "core/qbft": ["zz_verif_c02_test.go", "zz_verif_hook.go"]},
-    libs=["enumx", "bsync"],
-    splice={"core/qbft/qbft.go": splice_qbft, "app/k1util/k1util.go": splice_k1memo,
-            "core/consensus/timer/roundtimer.go": splice_bsync, "core/consensus/qbft/qbft.go": splice_bsync,
-            "core/consensus/qbft/transport.go": splice_bsync, "core/consensus/qbft/sniffer.go": splice_bsync},
+    files={"core/consensus/qbft": ["zz_verif_c04_test.go"], "core/qbft": ["zz_verif_c02_test.go", "zz_verif_hook.go"]},
+    libs=["enumx"],
+    splice={"core/qbft/qbft.go": splice_qbft, "app/k1util/k1util.go": splice_k1memo},
     extra_files={"app/k1util": ["zz_verif_k1memo.go"]},
     run={"core/consensus/qbft": "TestVerifC04", "core/qbft": "TestVerifC04u"},
     level="fault_enumeration",
